@@ -2,6 +2,7 @@
 C01 (well-formed graph), C05 (unique ids, lookup), C11 (owner == membership),
 C15 (rejected call changes nothing) and C16 (accepted call has exactly its documented effect).
 """
+import sys
 import copy
 
 import vf.env  # noqa: F401
@@ -976,7 +977,8 @@ def _lookup_checks(u, s1, acc, sh, name, structure_ok=True):
     for v in s1['T'].values():
         if v['id'] not in ids:
             ids.append(v['id'])
-    ids += [987654, 'no-such-id']
+    # ids no member has -- among them extreme and falsy ones (an implementation's own sentinels must not be found by a lookup)
+    ids += [x for x in (987654, 'no-such-id', sys.maxsize, -sys.maxsize - 1, -1, 0, '', None) if x not in ids]
     for wl, roots in s1['R'].items():
         w = u.wobj[wl]
         members = reach(s1, roots)
